@@ -489,7 +489,7 @@ func (r *runState) viol(kind, site, detail string) {
 func (r *runState) drift(f string, a ...any) {
 	r.res.Drift = append(r.res.Drift, fmt.Sprintf("step %d: ", r.stepNo)+fmt.Sprintf(f, a...))
 }
-func (r *runState) ev(e map[string]any) { r.res.Trace = append(r.res.Trace, e) }
+func (r *runState) ev(e map[string]any) { e["step"] = r.stepNo; r.res.Trace = append(r.res.Trace, e) }
 
 func (w *world) newRun(sc script) (*runState, error) {
 	w.seq++
@@ -799,7 +799,11 @@ func (r *runState) doStep(st step) error {
 			}
 			ci.vc, ci.url = c, e.StatusListCredential
 			ci.index, _ = strconv.Atoi(e.StatusListIndex)
-			_, ci.page, _ = parseListURL(ci.url)
+			listIssuer, page, okURL := parseListURL(ci.url)
+			if !okURL {
+				return fmt.Errorf("status list URL %q does not have the form <base>/statuslist/<did>/<page> this driver serves", ci.url)
+			}
+			ci.page = page
 			ci.slot = r.slotOf(ci.index)
 			r.res.Checks++
 			key := ci.url + "#" + strconv.Itoa(ci.index)
@@ -808,7 +812,7 @@ func (r *runState) doStep(st step) error {
 			} else {
 				r.usedSlots[key] = name
 			}
-			if listIssuer, _, ok := parseListURL(ci.url); !ok || listIssuer.String() != r.web[i].String() || ci.index < 0 || ci.index > maxIndex {
+			if listIssuer.String() != r.web[i].String() || ci.index < 0 || ci.index > maxIndex {
 				r.viol("slot-outside-own-list", "StatusList2021.Entry", fmt.Sprintf("%s issued by %s got entry %s", name, r.web[i], key))
 			}
 			// reference allocation
@@ -913,10 +917,20 @@ func (r *runState) doStep(st step) error {
 		n.doer.mode, n.doer.fetches = src, nil
 		n.doer.other, n.doer.forgeIx = "", nil
 		if c.kind != "net" {
-			n.doer.forgeIx = []int{c.index}
-			if li, _, ok := parseListURL(c.url); ok {
+			n.doer.forgeIx = append([]int{}, r.slotIndex...) // a forged "set" list has the bit of every slot set
+			// "another list": the same issuer's other page if there is one, else page 1 of the other issuer
+			if li, pg, ok := parseListURL(c.url); ok {
+				otherPage := 1
+				if pg == 1 {
+					otherPage = 2
+				}
 				for _, i := range []string{"i1", "i2"} {
-					if r.web[i].String() != li.String() && len(r.alloc[i]) > 0 {
+					if r.web[i].String() == li.String() && len(r.alloc[i]) >= otherPage {
+						n.doer.other = issuerBase + "/statuslist/" + li.String() + "/" + strconv.Itoa(otherPage)
+					}
+				}
+				for _, i := range []string{"i1", "i2"} {
+					if n.doer.other == "" && r.web[i].String() != li.String() && len(r.alloc[i]) > 0 {
 						n.doer.other = issuerBase + "/statuslist/" + r.web[i].String() + "/1"
 					}
 				}
@@ -942,18 +956,23 @@ func (r *runState) doStep(st step) error {
 			}
 			if f.Served != nil {
 				e["served"] = map[string]any{"signer": r.modelIssuer(f.Served.Issuer), "left": f.Served.Left, "bits": r.modelBits(f.Target, f.Served.Bits), "sigok": f.Served.SigOK,
-					"i": r.modelIssuer(f.Served.Issuer), "p": pageOf(f.Target)}
-				// the node has refreshed the list it asked for from the issuer: every credential whose bit is set in it must be rejected from now on
-				if f.Mode == "up" && f.Target == f.URL {
-					for _, b := range f.Served.Bits {
-						if cn, ok := r.usedSlots[f.URL+"#"+strconv.Itoa(b)]; ok && r.creds[cn].revoked {
-							r.must[n.name][cn] = true
+					"i": r.modelIssuer(issuerOfURL(f.Target)), "p": pageOf(f.Target)}
+				// the node has refreshed the list from the issuer node, for a credential of the list's own issuer: every credential
+				// the issuer has revoked on that list must be rejected by this node from now on. (A download made for the outsider's
+				// credential does not count: the node may refuse a list that was not issued by that credential's issuer.)
+				if f.Mode == "up" && f.Target == f.URL && c.kind == "sl" {
+					for _, d := range r.creds {
+						if d.kind == "sl" && d.url == f.URL && d.revoked {
+							r.must[n.name][d.name] = true
 						}
 					}
 				}
 			}
-		} else if src != "up" {
+		} else if src != "up" && st["sweep"] != true {
 			r.drift("no GET although the model expects a refresh (src=%s)", src)
+		}
+		if want := st.str("v"); want != "" && want != verdict {
+			r.drift("verdict %s for %s on %s, the descriptive model says %s", verdict, c.name, n.name, want)
 		}
 		r.ev(e)
 		r.judge(c, n.name, src, verdict, fetched)
@@ -973,6 +992,7 @@ func (r *runState) doStep(st step) error {
 }
 
 func pageOf(url string) int { _, p, _ := parseListURL(url); return p }
+func issuerOfURL(url string) string { d, _, _ := parseListURL(url); return d.String() }
 
 func (r *runState) modelIssuer(d string) string {
 	for i, w := range r.web {
@@ -1277,11 +1297,11 @@ func (w *world) calibrate() error {
 	if err != nil {
 		return err
 	}
-	if err := w.inode.db.Exec("UPDATE status_list SET last_issued_index = ? WHERE subject_id = ?", maxIndex-1, e.StatusListCredential).Error; err != nil {
-		return err
-	}
 	var urls []string
-	for k := 0; k < 2; k++ {
+	for _, preset := range []int{maxIndex - 1, maxIndex} {
+		if err := w.inode.db.Exec("UPDATE status_list SET last_issued_index = ? WHERE subject_id = ?", preset, e.StatusListCredential).Error; err != nil {
+			return err
+		}
 		c, err := w.inode.iss.Issue(w.ctx, template(r.web["i1"]), issuer.CredentialOptions{WithStatusListRevocation: true})
 		if err != nil {
 			return err
